@@ -853,6 +853,15 @@ func runC15(env *core.Env) {
 					tv += micros
 				}
 				c15Proto(env, "Time", tv, "", p-3)
+				// values finer than the declared precision (hand-built elements): rendered by cutting, like jsonformat
+				if p < 6 {
+					c15Proto(env, "Time", secs*1000000+micros, "", p-3)
+					c15Proto(env, "Instant", us+micros, tz, p-3)
+					edge := []int64{999600, 999999, 500, 499999, 500000, 999500, 123600}[k%7]
+					c15Proto(env, "Time", (secs/60*60+59)*1000000+edge, "", p-3)
+					c15Proto(env, "Time", 86399*1000000+edge, "", p-3)
+					c15Proto(env, "Instant", (days*86400+secs/60*60+59)*1000000+edge, tz, p-3)
+				}
 			}
 		}
 	}
